@@ -131,6 +131,15 @@ class Check:
                       if k["property"] == prop and k["status"] == "known"]
         os.makedirs(os.path.join(VERIF, "replays"), exist_ok=True)
         os.makedirs(os.path.join(VERIF, "evidence"), exist_ok=True)
+        # which lines and branches of the tool the generated inputs reach (measured, reported in the evidence; no verdict)
+        self.cov = None
+        if os.environ.get("VERIF_COVERAGE", "1") != "0":
+            try:
+                import coverage
+                self.cov = coverage.Coverage(data_file=None, branch=True, include=[os.path.join(REPO, "gaftools", "*")], config_file=False)
+                self.cov.start()
+            except Exception:  # noqa: coverage measurement is optional
+                self.cov = None
 
     # ------------------------------------------------------------------ accounting
     def count(self, key, n=1):
@@ -214,6 +223,35 @@ class Check:
                 raise HarnessError("driver error %r on case %s" % (r["driver_error"], json.dumps(c)[:400]))
         return out
 
+    def impl_coverage(self):
+        """statement / branch coverage of gaftools/*.py reached by this run's calls into the tool (in-process calls only)"""
+        if not self.cov:
+            return None
+        try:
+            self.cov.stop()
+            data = self.cov.get_data()
+            out = {}
+            for f in sorted(data.measured_files()):
+                rel = os.path.relpath(f, REPO)
+                try:
+                    _, stmts, _, missing, _ = self.cov.analysis2(f)
+                except Exception:  # noqa
+                    continue
+                if not stmts:
+                    continue
+                runs, cur = [], None
+                for ln in missing:
+                    if cur and ln == cur[1] + 1:
+                        cur[1] = ln
+                    else:
+                        cur = [ln, ln]
+                        runs.append(cur)
+                out[rel] = {"statements": len(stmts), "executed": len(stmts) - len(missing),
+                            "missed_lines": ["%d-%d" % (a, b) if a != b else str(a) for a, b in runs][:200]}
+            return out
+        except Exception as e:  # noqa
+            return {"error": str(e)[:200]}
+
     # ------------------------------------------------------------------ verdicts
     def violation(self, what, replay):
         """a concrete failing input against the real code"""
@@ -260,6 +298,7 @@ class Check:
             pass
         for k, v in CLI_COUNTS.items():
             self.hist["entry:" + k] = v
+        impl_cov = self.impl_coverage()
         cov = {
             "obligations": len(self.obligations),
             "discharged": len(self.discharged),
@@ -278,6 +317,8 @@ class Check:
         }
         if self.exhaustive is not None:
             cov["exhaustive"] = self.exhaustive
+        if impl_cov:
+            cov["implementation_coverage"] = impl_cov
         cov.update(self.extra)
         ev = {"property_id": self.prop, "tier": self.tier, "seed": self.seed, "level": level, "coverage": cov,
               "assumptions": self.assumptions, "wall_s": round(wall, 2), "violations": len(self.violations)}
@@ -352,7 +393,30 @@ def _argv(sub, kw):
     return a
 
 
-def tool(sub, via_cli=None, **kw):
+class _KeepOpen:
+    """text sink standing in for sys.stdout: collects what is written; `close()` (run_sort closes its writer) is recorded, not obeyed"""
+
+    def __init__(self):
+        import io
+        self.buf = io.StringIO()
+        self.closed_by_tool = False
+
+    def write(self, x):
+        if isinstance(x, bytes):
+            raise TypeError("string argument expected, got 'bytes'")
+        return self.buf.write(x)
+
+    def flush(self):
+        pass
+
+    def close(self):
+        self.closed_by_tool = True
+
+    def isatty(self):
+        return False
+
+
+def tool(sub, via_cli=None, allow_stdout=False, **kw):
     """one call of sub-command `sub` of the real tool, either through its Python entry point (`view.run`, `run_sort`, ...) or -
     for a share of the calls, drawn from a PRNG stream of its own - through the command line (`gaftools.__main__.main(argv)`,
     in-process: argument parser, `validate`, `main(args)` of the sub-command). Exceptions and `SystemExit` propagate as they
@@ -361,6 +425,24 @@ def tool(sub, via_cli=None, **kw):
     if via_cli is None:
         via_cli = CLI_RNG.random() < CLI_SHARE
     CLI_COUNTS[("cli:" if via_cli else "api:") + sub] = CLI_COUNTS.get(("cli:" if via_cli else "api:") + sub, 0) + 1
+    okey = "outgaf" if sub == "sort" else "output"
+    to_stdout = bool(via_cli and allow_stdout and kw.get(okey) and CLI_RNG.random() < 0.4)
+    if to_stdout:
+        # no -o: the records go to standard output (the documented default); collected here and written to the file the caller
+        # expects, so that both routes are judged by the same code
+        CLI_COUNTS["cli-stdout:" + sub] = CLI_COUNTS.get("cli-stdout:" + sub, 0) + 1
+        target = kw[okey]
+        kw = dict(kw)
+        kw[okey] = None
+        import contextlib
+        sink = _KeepOpen()
+        try:
+            with contextlib.redirect_stdout(sink):
+                tool(sub, via_cli=True, allow_stdout=False, **kw)
+        finally:
+            with open(target, "w") as f:
+                f.write(sink.buf.getvalue())
+        return None
     if via_cli:
         from gaftools.__main__ import main as gmain
         from gaftools.cli import CommandLineError
